@@ -1080,7 +1080,9 @@ impl AnnotationStore {
                 config.dataformat = DataFormat::Csv;
                 return AnnotationStore::from_csv_file(filename, config);
             }
-            todo!("Merging CSV files for AnnotationStore is not supported yet");
+            return Err(StamError::OtherError(
+                "Merging CSV files for AnnotationStore is not supported yet",
+            ));
         }
 
         self.merge_json_file(filename)?;
